@@ -530,9 +530,11 @@ class ProfileEngine:
                     v["rule"] = "F2"
                 violation = v
                 break
-            states.add(core.digest([ref, sorted(explicit)]))
+            nref = json.loads(json.dumps(ref, default=str).replace(
+                str(scratch), "<scratch>"))
+            states.add(core.digest([nref, sorted(explicit)]))
             log.append({"i": i, "op": kind,
-                        "state": core.digest([ref, explicit])})
+                        "state": core.digest([nref, explicit])})
         return {"violation": violation, "log_digest": core.digest(log),
                 "log": log, "probes": dict(probes), "faults": {},
                 "states": sorted(states), "nontrivial": nontrivial,
